@@ -17,8 +17,35 @@ GROUP = Group("io", name="io", jobs=10, mem_gb=14, timeout_s=900)
 PLAN = [(GROUP, {"quick": ["c13_q_"], "thorough": ["c13_t_"]})]
 
 
+FRAMED_ASSUMPTIONS = [
+    "layer 2 (mirsym/c13_framed.py): <Framed as Stream>::poll_next (framed/read.rs) with its Configuring / Idle / Reading states, the "
+    "boxed refill block, Frame::{len, slice}, AsyncReadExt::append and the real buffer.rs underneath, interpreted from MIR over the "
+    "ghost Vec<u8> of mirsym/c11_buffer.py with an adversarial inner reader (Pending, Err, Ok(n) within the room offered)",
+    "framer and codec are abstract: extract answers Err, Ok(None) or Ok(Some(frame)) with solver-chosen prefix / payload / suffix "
+    "lengths lying inside the buffered bytes (what layer 1 shows for the concrete framers); decode records the slice it is shown",
+    "one poll_next call (plus one per Pending answer) from an arbitrary state: not yet configured or idle, any buffer, any eof flag; "
+    "at most max_extract framer calls and max_inner reads per call (bounds)",
+    "obligations: no panic; after every return the state machine still owns its reader and buffer; the codec sees exactly the "
+    "payload bytes of the reported frame; exactly the frame is consumed; a refill appends without touching unread bytes; an error "
+    "leaves the unread bytes in place; None only after two end-of-file reads in a row",
+    "Sink side (framed.sink_send): poll_ready, start_send, poll_flush until it answers, from a not-yet-configured or idle sink with "
+    "arbitrary leftover buffer content; encoder = appends a solver-chosen payload or fails (possibly leaving partial output); framer = "
+    "rewrites the initialized part into a solver-chosen frame at least as long; obligations: the encoder starts from an empty buffer, "
+    "the writer receives exactly the enclosed frame once and in order (a prefix on error), the sink ends idle with its writer and buffer",
+    "outside: the Sink's flush / close semantics, the concrete codecs, dropping the stream / sink while a future is in flight",
+]
+
+
 def run(tier):
-    return kaniprop.run("C13", tier, PLAN, ASSUMPTIONS)
+    import sys, os
+    sys.path.insert(0, os.path.join(os.path.dirname(os.path.abspath(__file__)), "..", "mirsym"))
+    import multiprop
+    import mirprop
+    from framedplan import FramedPlan
+    return multiprop.run("C13", tier, [
+        ("framers and ancillary codecs (kani)", lambda: kaniprop.run("C13", tier, PLAN, ASSUMPTIONS)),
+        ("Framed read state machine (mirsym)", lambda: mirprop.run("C13", tier, FramedPlan(), FRAMED_ASSUMPTIONS)),
+    ])
 
 
 def replay(path):
